@@ -75,6 +75,9 @@ pub fn check(cfg: &Config) -> CheckResult {
     if n >= 3 {
         cls |= 8;
     }
+    if n >= 7 {
+        cls |= 128;
+    }
     if cfg.ranges.iter().any(|r| r.combos.iter().any(|c| c.2 != 1.0)) {
         cls |= 16;
     }
@@ -87,13 +90,14 @@ pub fn check(cfg: &Config) -> CheckResult {
     Ok(Outcome::new(blocked_pp > 0 && multi, fp_of(&format!("{:?}", cfg)), cls))
 }
 
-pub const CLASSES: &[&str] = &["player_player_collision", "range_overlaps_flop", "range_over_255", "three_plus_players", "weights_not_1", "no_legal_deal", "full_1326_range"];
+pub const CLASSES: &[&str] = &["player_player_collision", "range_overlaps_flop", "range_over_255", "three_plus_players", "weights_not_1", "no_legal_deal", "full_1326_range", "seven_plus_players"];
 
 pub fn strategy(budget: u128) -> impl Strategy<Value = Config> {
     let sizes = prop_oneof![Just(255usize), Just(256usize), Just(257usize), Just(300usize), Just(512usize), Just(1326usize), 100usize..1326];
     prop_oneof![
         4 => pool_config(2..=4, 6..=12, 8),
         1 => pool_config(5..=6, 10..=14, 3),
+        1 => pool_config(7..=10, 16..=26, 2),
         2 => free_config(1..=1, 1, 1326),
         2 => free_config(2..=3, 1, 6),
         1 => (flop_strategy(), range_from(all_combos(), 2, 30)).prop_map(|(flop, r)| Config { flop, ranges: vec![r.clone(), r], scope: None }),
@@ -109,7 +113,7 @@ pub fn strategy(budget: u128) -> impl Strategy<Value = Config> {
 }
 
 pub fn run(ctx: &mut Ctx) {
-    ctx.rule = "proptest configurations (ordered flop, 1..=6 players, ranges built directly from combo subsets with weights {1,.5,.25,0} + arbitrary f32 in [2^-10,1]): card-pool ranges (frequent player-player blocking, pools may contain flop cards), one player of any size up to 1326, small free ranges, two identical ranges, narrow beside wide (255/256/257/300/512/1326/random); sizes cut to a slot budget (cost bound). Oracle: multiset of yielded deals == reference enumeration (every legal deal once, nothing else), board = flop in order + turn/river, hole cards in player order, probability == product of weights within (n+1) roundings, all cards distinct. Non-trivial = the reference excluded >= 1 candidate deal because two players collide AND some player has >= 2 combos; distinct by configuration.".into();
+    ctx.rule = "proptest configurations (ordered flop, 1..=10 players, ranges built directly from combo subsets with weights {1,.5,.25,0} + arbitrary f32 in [2^-10,1]): card-pool ranges (frequent player-player blocking, pools may contain flop cards), one player of any size up to 1326, small free ranges, two identical ranges, narrow beside wide (255/256/257/300/512/1326/random); sizes cut to a slot budget (cost bound). Oracle: multiset of yielded deals == reference enumeration (every legal deal once, nothing else), board = flop in order + turn/river, hole cards in player order, probability == product of weights within (n+1) roundings, all cards distinct. Non-trivial = the reference excluded >= 1 candidate deal because two players collide AND some player has >= 2 combos; distinct by configuration.".into();
     ctx.assumptions = vec![
         "turn/river order inside the board is not demanded here (C04 does)".into(),
         "weights in {0} U [2^-10,1] so that a product over <= 6 players cannot underflow".into(),
